@@ -214,7 +214,7 @@ def run_scan(ntx, nops, kind="recovery"):
 
 TARGETS = [
     {"name": "c28_o2_q_vacuum_scan_wal_roots_2tx_2ops", "crate": "nervusdb-storage", "run": run_scan(2, 2, "vacuum")},
-    {"name": "c28_o2_t_vacuum_scan_wal_roots_3tx_2ops", "crate": "nervusdb-storage", "run": run_scan(3, 2, "vacuum")},
+    {"name": "c28_o2_t_vacuum_scan_wal_roots_3tx_1op", "crate": "nervusdb-storage", "run": run_scan(3, 1, "vacuum")},
     {"name": "c01_o2_q_scan_recovery_state_2tx_2ops", "crate": "nervusdb-storage", "run": run_scan(2, 2)},
-    {"name": "c01_o2_t_scan_recovery_state_3tx_2ops", "crate": "nervusdb-storage", "run": run_scan(3, 2)},
+    {"name": "c01_o2_t_scan_recovery_state_3tx_1op", "crate": "nervusdb-storage", "run": run_scan(3, 1)},
 ]
